@@ -31,6 +31,7 @@ type HarnessGroup struct {
 	ThoroughOnly []string                  `json:"thorough_only"`
 	ExtraInterp  []string                  `json:"extra_interp"`
 	RewritePkgs  []string                  `json:"rewrite_pkgs"`
+	NativeEnv    bool                      `json:"native_env"`
 }
 
 type CheckSpec struct {
@@ -62,6 +63,7 @@ type ReplayFile struct {
 	Params      map[string]int    `json:"params"`
 	Assignment  map[string]uint64 `json:"assignment"`
 	RewritePkgs []string          `json:"rewrite_pkgs"`
+	NativeEnv   bool              `json:"native_env"`
 	Expect      struct {
 		Kind string `json:"kind"`
 		ID   string `json:"id"`
@@ -242,7 +244,7 @@ func cmdCheck(args []string) int {
 			}
 			g := spec.Groups[res.groupIdx]
 			rf := ReplayFile{Property: prop, Harness: res.Harness, Package: res.Package, Sets: g.Sets, Redirects: g.Redirects,
-				Params: res.Params, Assignment: v.Assignment, RewritePkgs: g.RewritePkgs}
+				Params: res.Params, Assignment: v.Assignment, RewritePkgs: g.RewritePkgs, NativeEnv: g.NativeEnv}
 			rf.Expect.Kind, rf.Expect.ID, rf.Expect.Msg = v.Kind, v.ID, v.Msg
 			os.MkdirAll(replayDir, 0755)
 			rpath := filepath.Join(replayDir, sanitize(res.Harness+"-"+key)+".json")
